@@ -88,3 +88,27 @@ def Rec.addF (r : Rec) (k : String) (v : Float) : Rec := r.addS k (Wire.fstr v)
 def Rec.addB (r : Rec) (k : String) (v : Bool) : Rec := r.addS k (if v then "1" else "0")
 def Rec.addIs (r : Rec) (k : String) (v : List Int) : Rec := r.addS k (",".intercalate (v.map toString))
 def Rec.addFs (r : Rec) (k : String) (v : List Float) : Rec := r.addS k (",".intercalate (v.map Wire.fstr))
+
+namespace Wire
+
+def closeF (x y : Float) : Bool :=
+  x == y || (x.isNaN && y.isNaN) || (x - y).abs ≤ 1e-9 * (x.abs + y.abs) || (x - y).abs ≤ 1e-12
+
+def tolVal (a b : String) : Bool :=
+  if a == b then true
+  else
+    let la := a.splitOn ","; let lb := b.splitOn ","
+    la.length == lb.length && (la.zip lb).all fun (x, y) =>
+      x == y || (match parseF x, parseF y with
+        | some fx, some fy => closeF fx fy
+        | _, _ => false)
+
+/-- equality of two records up to float rounding (relative 1e-9) -/
+def tolEq (a b : Rec) : Bool :=
+  a.name == b.name && a.kv.length == b.kv.length &&
+    (a.kv.zip b.kv).all fun (x, y) => x.1 == y.1 && tolVal x.2 y.2
+
+def tolEqList (a b : List Rec) : Bool :=
+  a.length == b.length && (a.zip b).all fun (x, y) => tolEq x y
+
+end Wire
